@@ -848,8 +848,8 @@ bool GennaroJareckiKrawczykRabinDKG::Generate
 		{
 			mpz_set_ui(rhs, *it);
 			rbc->Broadcast(rhs);
-			rbc->Broadcast(s_ij[i][*it]);
-			rbc->Broadcast(sprime_ij[i][*it]);
+			rbc->Broadcast(s_ij[*it][i]);
+			rbc->Broadcast(sprime_ij[*it][i]);
 		}
 		mpz_set_ui(rhs, n); // broadcast end marker
 		rbc->Broadcast(rhs);
@@ -905,36 +905,37 @@ bool GennaroJareckiKrawczykRabinDKG::Generate
 						complaints.push_back(j);
 						mpz_set_ui(bar, 0L); // indicates an error
 					}
-					// verify complaint, i.e. (4) holds (5) not.
+					// verify complaint, i.e. (4) holds (5) not, for the values
+					// $s_{who,j}$, $s\prime_{who,j}$ that $P_j$ received from $P_{who}$
 					// compute LHS for the check
 					tmcg_mpz_fpowm(fpowm_table_g, lhs, g, foo, p);
 					tmcg_mpz_fpowm(fpowm_table_h, bar, h, bar, p);
-					mpz_mul(lhs, lhs, bar);
-					mpz_mod(lhs, lhs, p);
+					mpz_mul(bar, lhs, bar);
+					mpz_mod(bar, bar, p);
 					// compute RHS for the check
 					mpz_set_ui(rhs, 1L);
 					for (size_t k = 0; k <= t; k++)
 					{
-						mpz_ui_pow_ui(foo, who + 1, k); // adjust index $i$ in computation
-						mpz_powm(bar, C_ik[j][k], foo, p);
-						mpz_mul(rhs, rhs, bar);
+						mpz_ui_pow_ui(foo, j + 1, k); // adjust index $j$ in computation
+						mpz_powm(foo, C_ik[who][k], foo, p);
+						mpz_mul(rhs, rhs, foo);
 						mpz_mod(rhs, rhs, p);
 					}
 					// check equation (4)
-					if (mpz_cmp(lhs, rhs))
+					if (mpz_cmp(bar, rhs))
 					{
 						err << "P_" << i << ": checking 4(c)(4) failed; complaint against P_" << j << std::endl;
 						complaints.push_back(j);
+						cnt++;
+						continue;
 					}
-					// compute LHS for the check
-					tmcg_mpz_fpowm(fpowm_table_g, lhs, g, foo, p);
-					// compute RHS for the check
+					// compute RHS for the check (LHS is still $g^{s_{who,j}}$)
 					mpz_set_ui(rhs, 1L);
 					for (size_t k = 0; k <= t; k++)
 					{
-						mpz_ui_pow_ui(foo, i + 1, k); // adjust index $i$ in computation
-						mpz_powm(bar, A_ik[j][k], foo, p);
-						mpz_mul(rhs, rhs, bar);
+						mpz_ui_pow_ui(foo, j + 1, k); // adjust index $j$ in computation
+						mpz_powm(foo, A_ik[who][k], foo, p);
+						mpz_mul(rhs, rhs, foo);
 						mpz_mod(rhs, rhs, p);
 					}
 					// check equation (5)
